@@ -100,6 +100,7 @@ func (c *Ctx) NumSchedules() int { return c.nsched }
 
 // Begin installs the simulation for schedule k (0-based, ascending order).
 func (c *Ctx) Begin(k int) *simrt.Sim {
+	Touch()
 	var s *simrt.Sim
 	if c.replay != nil {
 		if k >= len(c.replay) {
